@@ -400,6 +400,9 @@ class InputScope(PSBTScope):
                 raise PSBTError("Duplicated taproot derivation path")
             b = BytesIO(v)
             num_leaf_hashes = compact.read_from(b)
+            # every leaf hash takes 32 bytes of the value, don't trust the counter
+            if num_leaf_hashes * 32 > len(v):
+                raise PSBTError("Invalid number of taproot leaf hashes")
             leaf_hashes = [b.read(32) for i in range(num_leaf_hashes)]
             if not all([len(leaf) == 32 for leaf in leaf_hashes]):
                 raise PSBTError("Invalid length of taproot leaf hashes")
@@ -609,6 +612,9 @@ class OutputScope(PSBTScope):
                 raise PSBTError("Duplicated taproot derivation path")
             b = BytesIO(v)
             num_leaf_hashes = compact.read_from(b)
+            # every leaf hash takes 32 bytes of the value, don't trust the counter
+            if num_leaf_hashes * 32 > len(v):
+                raise PSBTError("Invalid number of taproot leaf hashes")
             leaf_hashes = [b.read(32) for i in range(num_leaf_hashes)]
             if not all([len(leaf) == 32 for leaf in leaf_hashes]):
                 raise PSBTError("Invalid length of taproot leaf hashes")
